@@ -45,7 +45,13 @@ func (s *Shard) MarkGarbage(cnr cid.ID, addrs []oid.ID, mark meta.GarbageMark) e
 
 	if mark == meta.GarbageMarkDefault && s.hasWriteCache() {
 		for i := range addrs {
-			_ = s.writeCache.Delete(oid.NewAddress(cnr, addrs[i]))
+			addr := oid.NewAddress(cnr, addrs[i])
+			// locked object stays available despite the mark (until GC removes
+			// it), and its only copy may be the cached one
+			if locked, err := s.metaBase.IsLocked(addr); err != nil || locked {
+				continue
+			}
+			_ = s.writeCache.Delete(addr)
 		}
 	}
 
